@@ -24,7 +24,21 @@ SCG == << <<"hash", "sc.srcId">>, <<"hash", "sc.assetId">>, <<"u63", "sc.amount"
 OCG == << <<"hash", "out.assetId">>, <<"u63", "out.amount">>, <<"vm1", "out.vmver">>,
           <<"str", "out.prog">>, <<"strs", "out.state">> >>
 ICG == << <<"str", "iss.nonce">>, <<"hash", "iss.assetId">>, <<"u63", "iss.amount">> >>
-IWG == << <<"str", "iss.def">>, <<"u63", "iss.vmver">>, <<"str", "iss.prog">>, <<"strs", "in.args">> >>
+IWG == << <<"str", "iss.def">>, <<"u63", "iss.vmver">>, <<"str", "iss.prog">> >>
+
+(* The issuance asset id is sha3 of (prog, vmver, sha3(def)); the reader recomputes it *)
+(* and refuses a mismatch. The hash is uninterpreted. AidMode = "model": the world of  *)
+(* specification-made values, where the hash is the placeholder function ModelAid (the *)
+(* Go drivers replace placeholder ids by the real hash before running the code).       *)
+(* AidMode = "trusted": values recorded from the code; their ids are taken to be the   *)
+(* hash, no check.                                                                     *)
+CONSTANT AidMode
+RECURSIVE SumB(_)
+SumB(b) == IF b = <<>> THEN 0 ELSE (b[1] + SumB(Tail(b))) % 256
+RECURSIVE Rp(_,_)
+Rp(n, x) == IF n = 0 THEN <<>> ELSE <<x>> \o Rp(n - 1, x)
+ModelAid(def, vmver, prog) ==
+  <<165, 90, Len(def) % 256, SumB(def), Len(prog) % 256, SumB(prog)>> \o vmver \o Rp(10 - Len(vmver), 0) \o Rp(16, 170)
 
 -----------------------------------------------------------------------------
 (* decoders *)
@@ -49,9 +63,11 @@ DecInput(s, p, lim) ==
         LET cm == RdSeq(ICG, s, t.p, c.lim, <<>>) IN IF ~cm.ok THEN cm ELSE
         LET w == RdExt(s, c.nx, lim, "in.wlen") IN IF ~w.ok THEN w ELSE
         LET wt == RdSeq(IWG, s, w.p, w.lim, <<>>) IN IF ~wt.ok THEN wt ELSE
+        IF AidMode = "model" /\ cm.v[2] # ModelAid(wt.v[1], wt.v[2], wt.v[3]) THEN Err("assetid", "iss.assetId") ELSE
+        LET ar == RdStrs(s, wt.p, w.lim, "in.args") IN IF ~ar.ok THEN ar ELSE
         Ok([av |-> a.v, kind |-> "issuance", nonce |-> cm.v[1], assetId |-> cm.v[2], amount |-> cm.v[3],
-            def |-> wt.v[1], vmver |-> wt.v[2], prog |-> wt.v[3], args |-> wt.v[4],
-            csuffix |-> Rest(s, cm.p, c.lim), wsuffix |-> Rest(s, wt.p, w.lim)], w.nx)
+            def |-> wt.v[1], vmver |-> wt.v[2], prog |-> wt.v[3], args |-> ar.v,
+            csuffix |-> Rest(s, cm.p, c.lim), wsuffix |-> Rest(s, ar.p, w.lim)], w.nx)
     [] t.v = 1 \/ t.v = 3 ->                                          \* spend / veto
         LET sc == RdSC(s, t.p, c.lim) IN IF ~sc.ok THEN sc ELSE
         LET vt == IF t.v = 3 THEN RdStr(s, sc.p, c.lim, "veto.vote") ELSE Ok(<<>>, sc.p) IN IF ~vt.ok THEN vt ELSE
@@ -123,7 +139,7 @@ TInput(i) ==
   CASE i.kind = "ext" -> TExt("in.clen", <<>>, i.csuffix) \o TExt("in.wlen", <<>>, i.wsuffix)
     [] i.kind = "issuance" ->
          TExt("in.clen", TByte("in.type", 0) \o TSeq(ICG, <<i.nonce, i.assetId, i.amount>>), i.csuffix) \o
-         TExt("in.wlen", TSeq(IWG, <<i.def, i.vmver, i.prog, i.args>>), i.wsuffix)
+         TExt("in.wlen", TSeq(IWG, <<i.def, i.vmver, i.prog>>) \o TStrs("in.args", i.args), i.wsuffix)
     [] i.kind = "spend" ->
          TExt("in.clen", TByte("in.type", 1) \o TExt("sc.len", TSeq(SCG, SCVals(i)), i.scsuffix), i.csuffix) \o
          TExt("in.wlen", TStrs("in.args", i.args), i.wsuffix)
